@@ -840,8 +840,9 @@ package psatoken
 //@   ghostset prov(ret0) = bytesVal(buf) when ret1 == nil
 //@   ensures[err] ret1 != nil ==> ret0 == nil
 //@   ensures[malformed] !cborSelOK(bytesVal(buf)) ==> ret1 != nil
+//@   ensures[null] cborIsNull(bytesVal(buf)) ==> ret1 != nil
 //@   ensures[unregistered] cborSelOK(bytesVal(buf)) && !inDom(profilesRegister, cborProfile(bytesVal(buf))) ==> ret1 != nil
-//@   ensures[dispatch] ret1 == nil ==> cborSelOK(bytesVal(buf)) && inDom(profilesRegister, cborProfile(bytesVal(buf))) && ret0 != nil && fresh(ret0) && dynType(ret0) == profClaimsType(profilesRegister[cborProfile(bytesVal(buf))].Profile)
+//@   ensures[dispatch] ret1 == nil ==> cborSelOK(bytesVal(buf)) && !cborIsNull(bytesVal(buf)) && inDom(profilesRegister, cborProfile(bytesVal(buf))) && ret0 != nil && fresh(ret0) && dynType(ret0) == profClaimsType(profilesRegister[cborProfile(bytesVal(buf))].Profile)
 //@   ensures[p1] ret1 == nil && (cborProfile(bytesVal(buf)) == "" || cborProfile(bytesVal(buf)) == "PSA_IOT_PROFILE_1") ==> typeIs(ret0, *P1Claims) && wfP1(*ret0.(*P1Claims)) && ret0.(*P1Claims).CanonicalProfile == "PSA_IOT_PROFILE_1" && specFreshBytesP1(*ret0.(*P1Claims))
 //@   ensures[p2] ret1 == nil && cborProfile(bytesVal(buf)) == "http://arm.com/psa/2.0.0" ==> typeIs(ret0, *P2Claims) && wfP2(*ret0.(*P2Claims)) && ret0.(*P2Claims).CanonicalProfile == "http://arm.com/psa/2.0.0" && specFreshBytesP2(*ret0.(*P2Claims))
 //@   ensures[wf] ret1 == nil ==> (typeIs(ret0, *P1Claims) ==> wfP1(*ret0.(*P1Claims))) && (typeIs(ret0, *P2Claims) ==> wfP2(*ret0.(*P2Claims)))
@@ -1002,7 +1003,7 @@ package psatoken
 //@   ensures[fresh-msg] e.message != nil && fresh(e.message)
 //@   ensures[envelope] !coseDecOK(bytesVal(cwt)) ==> ret != nil && e.Claims == old(e.Claims) && len(e.message.Signature) == 0 && e.message.Payload == nil
 //@   ensures[claims-fail] coseDecOK(bytesVal(cwt)) && ret != nil ==> e.Claims == nil
-//@   ensures[ok] ret == nil ==> coseDecOK(bytesVal(cwt)) && e.Claims != nil && fresh(e.Claims) && prov(e.Claims) == bytesVal(e.message.Payload) && bytesVal(e.message.Payload) == cosePayload(bytesVal(cwt)) && bytesVal(e.message.Signature) == coseSig(bytesVal(cwt)) && protOf(e.message) == protId(coseRawProt(bytesVal(cwt)), coseProtMap(bytesVal(cwt))) && cborSelOK(bytesVal(e.message.Payload)) && inDom(profilesRegister, cborProfile(bytesVal(e.message.Payload)))
+//@   ensures[ok] ret == nil ==> coseDecOK(bytesVal(cwt)) && e.Claims != nil && fresh(e.Claims) && prov(e.Claims) == bytesVal(e.message.Payload) && bytesVal(e.message.Payload) == cosePayload(bytesVal(cwt)) && bytesVal(e.message.Signature) == coseSig(bytesVal(cwt)) && protOf(e.message) == protId(coseRawProt(bytesVal(cwt)), coseProtMap(bytesVal(cwt))) && cborSelOK(bytesVal(e.message.Payload)) && !cborIsNull(bytesVal(e.message.Payload)) && inDom(profilesRegister, cborProfile(bytesVal(e.message.Payload)))
 //@   ensures[copies] ret == nil ==> (e.message.Payload == nil || fresh(e.message.Payload)) && fresh(e.message.Signature)
 //@   ensures[inv] evInv(e)
 //@   modifies e.message, e.Claims
@@ -1011,7 +1012,7 @@ package psatoken
 //@   property C02 C03 C19 C20 C05 C18 C08
 //@   ensures[err] ret1 != nil ==> ret0 == nil
 //@   ensures[ok] ret1 == nil ==> ret0 != nil && fresh(ret0) && coseDecOK(bytesVal(buf)) && ret0.Claims != nil && ret0.message != nil && prov(ret0.Claims) == bytesVal(ret0.message.Payload) && bytesVal(ret0.message.Payload) == cosePayload(bytesVal(buf)) && cborSelOK(cosePayload(bytesVal(buf))) && evInv(ret0) && bound(ret0)
-//@   ensures[reject] !coseDecOK(bytesVal(buf)) || !cborSelOK(cosePayload(bytesVal(buf))) ==> ret1 != nil
+//@   ensures[reject] !coseDecOK(bytesVal(buf)) || !cborSelOK(cosePayload(bytesVal(buf))) || cborIsNull(cosePayload(bytesVal(buf))) ==> ret1 != nil
 //@   modifies nothing
 
 //@ func DecodeAndValidateEvidenceFromCOSE
